@@ -6,6 +6,7 @@ import (
 	"encoding/hex"
 	"encoding/json"
 	"fmt"
+	"github.com/dave/jennifer/jen"
 	"io"
 	"os"
 	"os/exec"
@@ -27,16 +28,39 @@ type Case struct {
 
 // render builds the recipe from scratch and renders it; the result encodes
 // success/error and the bytes.
-func render(f *recipe.File) string {
+func render(f *recipe.File) string { return renderWith(f, false) }
+
+// callerTable is the one map a caller might keep for all its ImportNames calls.
+var callerTable = map[string]string{}
+
+// renderWith: with reuse set, every ImportNames call of the build gets the same map object
+// (emptied and refilled), and before the File is rendered the caller fills that map with other
+// names for the same paths — its own map, to do with as it likes.
+func renderWith(f *recipe.File, reuse bool) string {
 	var out string
 	err := hx.Safe(func() error {
-		jf := (&recipe.Builder{}).File(f)
-		buf := &bytes.Buffer{}
-		if err := jf.Render(buf); err != nil {
+		var jf *jen.File
+		func() {
+			defer func() { recipe.CallerTable = nil }()
+			if reuse {
+				recipe.CallerTable = callerTable
+			}
+			jf = (&recipe.Builder{}).File(f)
+		}()
+		if reuse {
+			for k := range callerTable {
+				callerTable[k] = "scribbled"
+			}
+			callerTable["example.com/never/used"] = "junk"
+		}
+		// File.Render, and for a sample of the outputs also GoString and Save (over an existing,
+		// longer file): every entry point gives the same bytes
+		b, err := recipe.RenderFile(jf)
+		if err != nil {
 			out = "ERROR: " + err.Error()
 			return nil
 		}
-		out = "OK: " + buf.String()
+		out = "OK: " + string(b)
 		return nil
 	})
 	if err != nil {
@@ -50,8 +74,12 @@ func check(c Case) error {
 	if strings.HasPrefix(first, "PANIC") {
 		return fmt.Errorf("%s", first)
 	}
+	if strings.HasPrefix(first, "ERROR: entry points disagree") {
+		// the output of one File depends on the entry point (or, for Save, on what the target held before)
+		return fmt.Errorf("%s", first)
+	}
 	for i := 1; i < c.Rebuilds; i++ {
-		if got := render(c.File); got != first {
+		if got := renderWith(c.File, i%3 == 1); got != first {
 			return fmt.Errorf("build %d of the same recipe renders differently:\n--- first ---\n%s\n--- build %d ---\n%s", i+1, first, i+1, got)
 		}
 	}
